@@ -219,7 +219,8 @@ pub fn xbuild_emit(dir: &Path, seed: u64, n: u32) -> Result<(), String> {
                 DOp::LoadUser(r) => Some(r.clone()),
                 _ => None,
             });
-        let o: Obs = observe(d, &sentences, &b.opts)?;
+        // (a dictionary that cannot be observed here is the main run's business: its round-trip sub-check generates the same cases)
+        let Ok(o): Result<Obs, String> = observe(d, &sentences, &b.opts) else { continue };
         let x = XCase {
             sentences,
             opts: b.opts.clone(),
@@ -305,6 +306,18 @@ pub fn absorb_xresults(rep: &mut Report, opts: &Opts, what: &str) {
         return;
     };
     for p in list.split(':').filter(|s| !s.is_empty()) {
+        // a model or dictionary the emitting build could not construct at all
+        let ef = Path::new(p).with_file_name("emit_failure.json");
+        if let Ok(t) = std::fs::read_to_string(&ef) {
+            let dst = crate::engine::out_dir(opts).join(format!("{}-xbuild-emit-failure-{}.json", rep.property, crate::engine::hash64(&t)));
+            let _ = std::fs::copy(&ef, &dst);
+            let err = serde_json::from_str::<serde_json::Value>(&t).ok().and_then(|v| v["error"].as_str().map(|s| s.to_string())).unwrap_or_default();
+            rep.violations.push(crate::engine::Violation {
+                sub: "xbuild_emit".into(),
+                reason: format!("a generated valid input could not be built for the cross-build exchange: {err}"),
+                replay: dst,
+            });
+        }
         let Ok(text) = std::fs::read_to_string(p) else {
             rep.notes.push(format!("cross-build result {p} missing"));
             continue;
